@@ -6,7 +6,9 @@ cps = lambda s: [ord(c) for c in s]
 VERIF = os.path.dirname(os.path.dirname(os.path.abspath(__file__)))
 exprs = ["@", "a", "a.b", "a[0]", "a[*].b", "length(a)", "keys(@)", "a || b", "`\"lit\"`", "'raw é😀'", "\"é\"", "a[?b > `1`]", "{x: a, y: b}",
          "[a, b]", "to_string(a)", "type(@)", "sort_by(a, &b)", "a[", "a..b", "a.b.", "nosuch(a)", "abs(a)", "a[::0]", "length(@)", "join(', ', a)",
-         "max_by(a, &b)", "a | [0]", "!a", "a == `1`", "not_null(a, b, `null`)", "&a", "*", "b.*", "a[].b", "s", "s | length(@)", "n", "big", "neg", "f"]
+         "max_by(a, &b)", "a | [0]", "!a", "a == `1`", "not_null(a, b, `null`)", "&a", "*", "b.*", "a[].b", "s", "s | length(@)", "n", "big", "neg", "f",
+         # results that are not strings although they print with quotes (an expression reference), for --unquoted
+         "not_null(&a)", "to_array(&a)[0]", "not_null(z, &s)", "[not_null(&a)]", "type(not_null(&a))"]
 inputs = ["{\"a\": [{\"b\": 2}, {\"b\": 1}], \"b\": {\"x\": \"y\"}}", "{\"a\": \"string value\", \"b\": null}", "{\"a\": -3}", "[1, 2, 3]", "\"just a string\"",
           "null", "{\"s\": \"é😀\\\"\\\\\\n\", \"n\": 1.5, \"big\": 18446744073709551615, \"neg\": -9223372036854775808, \"f\": 1e300}",
           "{\"a\": [\"x\", \"y\"], \"a\": [\"dup\", \"keys\"]}", "{\"a\": [[1, [2]], [3]]}", "  {\"a\" : { \"b\" : [ ] } }  ", "{\"a\": 1e400}",
